@@ -149,3 +149,27 @@ PROPS["C02"] = dict(
     assumptions=["finite doubles only (NaN/Infinity are not JSON; the serialiser's non-standard output for them is outside the property)",
                  "member names are C strings (no NUL) as the API requires"],
 )
+
+PROPS["C10"] = dict(
+    harness="C10_numeric.cpp", level="exploration",
+    technique="property testing of every accessor on generated nodes against a reference evaluated in __int128 / exact bit decomposition / big-integer rounding judge; complete boundary lattices (integers, doubles, decorated numeric strings, increment pairs); UBSan float-cast/signed-overflow checks as part of the oracle",
+    level_text="nodes of every kind (int64/uint64 around every 2^31/2^32/2^53/2^63/2^64 bound, random 64-bit patterns, doubles incl. "
+               "neighbours of every bound, subnormals, infinities, NaN, numeric and non-numeric strings with whitespace/sign/junk decorations) are read "
+               "through all five accessors and compared (value and documented errno) with an exact reference; set-then-get, wrong-type setters and "
+               "increments (exact sum in __int128, saturation at INT64_MIN/UINT64_MAX) likewise; all lattices are enumerated completely",
+    level_note="where json_object.h is silent or self-contradictory (errno in the open interval next to a bound, string->double overflow) only the value or membership in the documented alternatives is required",
+    rule="sequence of <=8 accessor/increment/setter probes; non-trivial = contains a double, string or uint64 node or an increment; distinct by hash of the probe list",
+    quick=[dict(mode="gen", cases=150000, workers=8),
+           dict(mode="lattice_int", enum=True, size=154, workers=1),
+           dict(mode="lattice_dbl", enum=True, size=256, workers=1),
+           dict(mode="lattice_str", enum=True, size=924, workers=1),
+           dict(mode="lattice_inc", enum=True, size=11858, workers=2)],
+    thorough=[dict(mode="gen", cases=16000000, workers=16),
+              dict(mode="lattice_int", enum=True, size=154, workers=1),
+              dict(mode="lattice_dbl", enum=True, size=256, workers=1),
+              dict(mode="lattice_str", enum=True, size=924, workers=1),
+              dict(mode="lattice_inc", enum=True, size=11858, workers=2),
+              dict(mode="gen", fuzz=True, secs=240, jobs=8, max_len=256)],
+    min_labels=dict(quick=dict(double_node=30000, string_node=30000, increment=30000, setters=15000)),
+    assumptions=["strings for get_double are drawn from the decimal subset of strtod's grammar (no hex floats / inf / nan spellings, which the header does not mention)"],
+)
